@@ -173,6 +173,14 @@ func injections(rep *world.Packet, kind string, source uint16, seed int64, quick
 			mk(fmt.Sprintf("topic variant %d (len %d)", i, len(t)), rep.Type, t, rep.Data)
 			mk(fmt.Sprintf("topic variant %d (len %d), empty data", i, len(t)), rep.Type, t, nil)
 		}
+	case "topic-flood":
+		// the same malformed-topic message over and over: more copies than any per-sender limit
+		// (limits are where the rarely taken branches are)
+		for i, t := range topicVariants(rep.Topic) {
+			for k := 0; k < 104; k++ {
+				mk(fmt.Sprintf("topic variant %d (len %d), copy %d", i, len(t), k), rep.Type, t, rep.Data)
+			}
+		}
 	case "msgtype":
 		for _, mt := range []uint8{0, 1, 2, 3, 255} {
 			mk(fmt.Sprintf("msgtype %d", mt), mt, rep.Topic, rep.Data)
@@ -183,7 +191,7 @@ func injections(rep *world.Packet, kind string, source uint16, seed int64, quick
 	return out
 }
 
-var kinds = []string{"truncate", "extend", "substitute", "asn1-remove", "asn1-duplicate", "topic", "msgtype", "own-tag"}
+var kinds = []string{"truncate", "extend", "substitute", "asn1-remove", "asn1-duplicate", "topic", "topic-flood", "msgtype", "own-tag"}
 
 // sessionRun brings a session to the given step, fires the injections at party 1, finishes.
 func sessionRun(c *harness.C, s sess, stateStep int, injs []inj) (returned, succeeded int) {
